@@ -256,7 +256,8 @@ class Ctx:
     # ---------------------------------------------------------------- obligations
     def oblig(self, kind, st, goal, node=None, text=""):
         """record + discharge one obligation (split into conjuncts)."""
-        goal = z3.simplify(goal) if z3.is_bool(goal) else goal
+        # (the goal is not simplified: hypotheses are not either, and syntactic agreement between a hypothesis
+        #  instance and the goal is what makes nonlinear clauses cheap)
         parts = conjuncts(goal)
         ok = True
         for i, g in enumerate(parts):
@@ -265,7 +266,7 @@ class Ctx:
         return ok
 
     def _one(self, name, kind, st, goal, node, text):
-        if z3.is_true(goal):
+        if z3.is_true(goal) or z3.is_true(z3.simplify(goal)):
             status, dt, model, reason = "discharged", 0.0, None, "trivial"
             key = None
         else:
@@ -337,6 +338,9 @@ class Ctx:
             self.oblig("requires satisfiable (vacuity guard)", State({}, []), z3.BoolVal(False))
             return
         ex = Exec(self, self.module, self.contract.get("loops", {}), self.loop_ord, top=True)
+        for g in c.get("ghost_init", []):
+            name, expr = g.split("=", 1)
+            st.env[name.strip()] = ev.spec_val(expr, st)
         outs = ex.block(self.fdef.body, [st])
         for s2 in outs["normal"]:
             self._check_post(s2, NoneV(), self.fdef)
@@ -573,6 +577,95 @@ def prove(hyps, goal, budget, depth=0):
     return prove1(hyps2, goal2, budget)
 
 
+def ground_def_instances(terms, defs, rounds=3):
+    """instances of the definitional axioms (computed sequences, named spec functions) at the ground occurrences of the
+    defined symbols in the VC - complete for non-recursive definitions and independent of E-matching heuristics"""
+    out = []
+    have = set()
+    cur = list(terms)
+    for _ in range(rounds):
+        new = []
+        for d in defs:
+            if d.num_patterns() == 0:
+                continue
+            pat = d.pattern(0).arg(0)
+            nv = d.num_vars()
+            is_sel = z3.is_select(pat)
+            hname = (pat.arg(0) if is_sel else pat).decl().name()
+            seen = set()
+            stack = list(cur)
+            while stack:
+                t = stack.pop()
+                if t.get_id() in seen or z3.is_quantifier(t) or not z3.is_app(t):
+                    continue
+                seen.add(t.get_id())
+                args = None
+                if is_sel:
+                    if z3.is_select(t) and z3.is_app(t.arg(0)) and t.arg(0).decl().name() == hname:
+                        args = list(t.arg(0).children()) + [t.arg(1)]
+                elif t.decl().name() == hname:
+                    args = list(t.children())
+                if args is not None and len(args) == nv:
+                    key = (d.get_id(), tuple(a.get_id() for a in args))
+                    if key not in have:
+                        have.add(key)
+                        new.append(z3.substitute_vars(d.body(), *reversed(args)))
+                stack.extend(t.children())
+        if not new:
+            break
+        out.extend(new)
+        cur = list(terms) + out
+    return out
+
+
+_umul = z3.Function("umul", z3.RealSort(), z3.RealSort(), z3.RealSort())
+_umuli = z3.Function("umuli", z3.IntSort(), z3.IntSort(), z3.IntSort())
+
+
+def abstract_mul(terms):
+    """replace every product of two non-numeral factors by an uninterpreted (commutative) function: the result is
+    *weaker* than the original VC, so refuting it refutes the original; congruence then proves equalities between
+    syntactically corresponding nonlinear expressions without invoking the nonlinear solver."""
+    cache = {}
+
+    def isnum(t):
+        return z3.is_rational_value(t) or z3.is_int_value(t)
+
+    def walk(t):
+        i = t.get_id()
+        if i in cache:
+            return cache[i]
+        if z3.is_quantifier(t):
+            vs = [z3.Const("%s!q%d" % (t.var_name(k), i), t.var_sort(k)) for k in range(t.num_vars())]
+            body = walk(z3.substitute_vars(t.body(), *reversed(vs)))
+            r = (z3.ForAll if t.is_forall() else z3.Exists)(vs, body) if not t.is_lambda() else t
+        elif z3.is_app(t) and t.num_args() > 0:
+            ch = [walk(c) for c in t.children()]
+            if t.decl().kind() == z3.Z3_OP_MUL:
+                nums = [c for c in ch if isnum(c)]
+                syms = [c for c in ch if not isnum(c)]
+                if len(syms) >= 2:
+                    syms.sort(key=lambda c: c.sexpr())
+                    f = _umuli if syms[0].sort() == z3.IntSort() and all(c.sort() == z3.IntSort() for c in syms) else _umul
+                    if f is _umul:
+                        syms = [z3.ToReal(c) if c.sort() == z3.IntSort() else c for c in syms]
+                    acc = syms[0]
+                    for c in syms[1:]:
+                        acc = f(acc, c)
+                    for c in nums:
+                        acc = c * acc
+                    r = acc
+                else:
+                    r = t.decl()(*ch)
+            else:
+                r = t.decl()(*ch)
+        else:
+            r = t
+        cache[i] = r
+        return r
+    return [walk(t) for t in terms]
+
+
 def prove1(hyps2, goal2, budget):
     """unsat -> discharged; sat -> failed (model of the *full* VC); otherwise undecided.
 
@@ -587,6 +680,11 @@ def prove1(hyps2, goal2, budget):
     RL = 3000000 if budget <= 30 else 10000000
     lem = spec_function_lemmas(hyps2, goal2)
     lem0 = spec_function_lemmas(hyps2, goal2, nonlinear=False)
+    defs = relevant_defs(list(hyps2) + [goal2] + lem)
+    if defs:
+        gi = ground_def_instances(list(hyps2) + [goal2] + lem, defs)
+        lem = lem + gi
+        lem0 = lem0 + gi
     qf_goal = not has_quantifier(goal2)
     if qf_goal:
         qf = [h for h in hyps2 if not has_quantifier(h)]
@@ -594,12 +692,26 @@ def prove1(hyps2, goal2, budget):
         r, s = _check(qf, goal2, lemq, 1500, mbqi=False, rlimit=RL)
         if r == z3.unsat:
             return "discharged", time.time() - t0, None, "z3 (quantifier-free hypotheses)"
+    if goal_is_nonlinear(goal2):
+        # phase A': products abstracted to an uninterpreted function (linear arithmetic + congruence only)
+        try:
+            ab = abstract_mul(list(hyps2) + [goal2] + list(lem0) + relevant_defs(list(hyps2) + [goal2] + list(lem0)))
+            s_ = z3.Solver()
+            s_.set("timeout", 6000)
+            s_.set("smt.mbqi", False)
+            s_.add(*ab[:len(hyps2)])
+            s_.add(z3.Not(ab[len(hyps2)]))
+            s_.add(*ab[len(hyps2) + 1:])
+            if s_.check() == z3.unsat:
+                return "discharged", time.time() - t0, None, "z3 (products abstracted to an uninterpreted function)"
+        except z3.Z3Exception:
+            pass
     for seed in range(K):
         r, s = _check(hyps2, goal2, lem0, 6000, mbqi=False, seed=seed, rlimit=RL)
         if r == z3.unsat:
             return "discharged", time.time() - t0, None, "z3"
         if seed == 0 and qf_goal:
-            r, s = _check(qf, goal2, lemq, budget * 250, mbqi=False, rlimit=RL * 4)
+            r, s = _check(qf, goal2, lemq, max(15000, budget * 500), mbqi=False, rlimit=RL * 20)
             if r == z3.unsat:
                 return "discharged", time.time() - t0, None, "z3 (quantifier-free hypotheses)"
         if seed == 1 and len(lem) != len(lem0):
@@ -715,6 +827,8 @@ class Eval:
     def ev_Name(self, n, st):
         if n.id in st.env:
             return st.env[n.id]
+        if self.spec and n.id in self.ctx.contract.get("spec_funs", {}):
+            return FnV(qual="specfun." + n.id)
         if self.spec and n.id in self.ctx.contract.get("macros", {}):
             return self.spec_val(self.ctx.contract["macros"][n.id], st)
         if n.id in self.module.imports:
@@ -1533,7 +1647,12 @@ class Exec:
     def hints(self, k, spec, st, node):
         """auto-active hints: each is proved in the end-of-body state from the previous ones, then assumed"""
         for i, (h, tag) in enumerate(self.ctx.clauses(spec.get("hints", []))):
-            g = self.sev.spec_bool(h, st)
+            try:
+                g = self.sev.spec_bool(h, st)
+            except Unsupported as e:
+                if "unresolved name" in str(e):
+                    continue        # the hint talks about a local that does not exist on this path
+                raise
             self.ctx.cur_tag = tag
             self.ctx.oblig("loop %d: hint: %s" % (k, h), st, g, node, h)
             self.ctx.cur_tag = None
